@@ -575,7 +575,14 @@ def _r3_r4(ck: Checker, prog: Program):
         if fn(e) == "int" and len(e.args) == 1:
             inner = e.args[0]
             if fn(inner) in ("round", "rint", "around") and equal(inner.args[0], q):
-                return "rounded"
+                # round(q, d) with d >= 1 decimals removes floating-point dust before the truncation; round(q) / rint(q) go to the
+                # NEAREST whole number - 9.6 intervals would count as 10
+                digits = inner.args[1] if len(inner.args) > 1 else None
+                if fn(digits) in ("kw_ndigits", "kw_decimals") and len(digits.args) == 1:
+                    digits = digits.args[0]
+                if digits is not None and digits.is_number and digits >= 1:
+                    return "rounded"
+                return "nearest"
             if equal(inner, q):
                 return "truncated"
             d = sp.simplify(inner - q)
@@ -583,7 +590,7 @@ def _r3_r4(ck: Checker, prog: Program):
                 return "rounded"
             return None
         if fn(e) in ("round", "rint") and len(e.args) == 1 and equal(e.args[0], q):
-            return "rounded"
+            return "nearest"
         if isinstance(e, sp.floor):
             inner = e.args[0]
             if equal(inner, q):
@@ -596,6 +603,10 @@ def _r3_r4(ck: Checker, prog: Program):
     if how == "rounded":
         ck.ok("C10.R4", fq, f"k = {k}", detail="exact quotient window_length/dt, rounded/tolerance-adjusted before truncation")
         ck.ok("C10.R3", fq, "samples per window = k + 1", detail=f"k = {k}")
+    elif how == "nearest":
+        ck.violation("C10.R4", fq, f"k = {k}",
+                     f"`{k}` rounds the quotient window_length/dt to the nearest whole number: a window length of 9.6 sample intervals gives k = 10, "
+                     f"more than the whole intervals it holds (windows start on the wrong samples and span one sample too many)", loc=f.loc())
     elif how == "truncated":
         ck.violation("C10.R4", fq, f"k = {k}",
                      f"`{k}` truncates the raw float quotient: a window length that is an exact multiple of the time step "
